@@ -71,7 +71,14 @@ let run (args : (string * string) list) : string =
                fl_maxref = (match p.max_ref with None -> n_usize_max | Some m -> m); fl_minlen = p.min_len } in
      let st0 = { s_nodes = n_of_int nn; s_arcs = n_of_int (get_int args "arcs"); s_bits = n_of_int glen } in
      (match to_props le st0 f with
-      | Some mt -> add "props" (ok (props_canon float_keys (string_of_coq mt) = props_canon float_keys itext'))
+      | Some mt ->
+        (* as in the flags channel: another spelling of the same code assignment is accepted
+           when the proved parser reads the same assignment from both texts *)
+        let fk2 = float_keys @ ["compressionflags="; "zetak="] in
+        let same_sets = props_canon float_keys (string_of_coq mt) = props_canon float_keys itext' in
+        let same_meaning = props_canon fk2 (string_of_coq mt) = props_canon fk2 itext'
+                           && parse_properties le (coq_of_string itext) = parse_properties le mt in
+        add "props" (ok (same_sets || same_meaning))
       | None -> add "props" "FAIL(model-refuses)");
      (match parse_properties le (coq_of_string itext) with
       | Some ((pn, pa), pf) -> add "propsback" (ok (pn = st0.s_nodes && pa = st0.s_arcs && pf = f))
